@@ -94,6 +94,16 @@ package types
 //@   ensures duplicate_refused: old(present(m, ti.name)) ==> result != nil && m[ti.name] == old(m[ti.name])
 //@   ensures others_untouched: allstr(k, k != ti.name ==> present(m, k) == old(present(m, k)) && m[k] == old(m[k]))
 
+//@ func (*Transaction).AddTransactionIntents
+//@   props C05 C06
+//@   requires inv_Transaction(t) && forall(i, 0, len(ti), ti[i] != nil)
+//@   requires known_type: tit == TransactionIntentNew || tit == TransactionIntentOld
+//@   let m = ite(tit == TransactionIntentNew, t.newIntents, t.oldIntents)
+//@   modifies mapof(m)
+//@   ensures keeps_invariant: inv_Transaction(t)
+//@   loop 0 invariant inv_Transaction(t)
+//@   loop 0 invariant unchanged(allmaps(map[string]*TransactionIntent), m)
+
 //@ func (*Transaction).AddIntentContent
 //@   props C05 C02
 //@   requires inv_Transaction(t)
@@ -146,8 +156,9 @@ package types
 //@   modifies TransactionCancelTimer.done
 //@   emits TimerStart(t.timer) if t.timer != nil && t.timer.done == nil
 //@   ensures no_timer: t.timer == nil ==> result == nil && ntrace() == n0
-//@   ensures starts: t.timer != nil && old(t.timer.done) == nil ==> result == nil && ntrace() == n0 + 1 && emitted(n0) == TimerStart(t.timer)
-//@   ensures not_twice: t.timer != nil && old(t.timer.done) != nil ==> result != nil && ntrace() == n0
+//@   ensures starts: t.timer != nil && old(t.timer.done) == nil ==> result == nil && ntrace() == n0 + 1 && emitted(n0) == TimerStart(t.timer) && t.timer.done != nil
+//@   ensures not_twice: t.timer != nil && old(t.timer.done) != nil ==> result != nil && ntrace() == n0 && t.timer.done == old(t.timer.done)
+//@   ensures other_timers_untouched: allref(p, TransactionCancelTimer, p != t.timer ==> p.done == old(p.done))
 
 // ---------------------------------------------------------------------------
 // TransactionManager  (C06: exclusive, id-scoped; C05: cancel rolls back exactly once)
@@ -177,6 +188,10 @@ package types
 //@   modifies t.transaction
 //@   ensures exclusive: old(t.transaction) != nil ==> r0 == nil && r1 != nil && t.transaction == old(t.transaction)
 //@   ensures registers: old(t.transaction) == nil ==> r0 != nil && fresh(r0) && r1 == nil && t.transaction == trans
+// the returned guard unregisters exactly this transaction from exactly this manager
+//@   ensures guard_cleans_up_this_transaction: r0 != nil ==> r0.cleanup != nil && closureof(r0.cleanup, "(*TransactionManager).RegisterTransaction$1") &&
+//@            *bindof(r0.cleanup, "(*TransactionManager).RegisterTransaction$1", 0) == trans &&
+//@            *bindof(r0.cleanup, "(*TransactionManager).RegisterTransaction$1", 1) == t
 
 //@ func (*TransactionManager).Confirm
 //@   props C06
